@@ -59,6 +59,12 @@ func NoDataWithoutCheck(p *load.Program, r *report.Report) {
 	a.noDataWithoutCheck()
 }
 
+// OutputSide evaluates rule (d) only: the CRC_32 the section writer emits is the running checksum of the section's bytes.
+func OutputSide(p *load.Program, r *report.Report) {
+	a := &A{P: p, R: r, funcs: p.SrcFuncs()}
+	a.outputSide()
+}
+
 // InputGate evaluates the input-side rules only (where sections and their CRC_32 end, the gate itself).
 func InputGate(p *load.Program, r *report.Report) {
 	a := &A{P: p, R: r, funcs: p.SrcFuncs()}
